@@ -12,7 +12,7 @@ from .. import clih, common, explore, mcharness, routing, vmp
 PROP = "C15"
 MOD = "vf.checks.c15"
 
-R1_ADAPTERS = [("-a", "a1=GATCGGAAGA"), ("-a", "a2=TTGCAGTCCA"), ("-g", "a3=CCATGGTACC")]
+R1_ADAPTERS = [("-a", "a1=GATCGGAAGA"), ("-a", "a2=TTGCAGTCCA"), ("-g", "a3=CCATGGTACC"), ("-a", "a4=ACTGNNCATGAC")]  # a4: IUPAC wildcards
 R2_ADAPTERS = [("-A", "b1=CTGTCTCTTA"), ("-A", "b2=AAGGTTCCAA"), ("-G", "b3=GGTCACGTTC")]
 INSERTS = ["ACGTTGCA", "TTGACCGTAGGT", "CAGT", "GGATCCTTAGCAAT", ""]  # "": reads that are nothing but adapters
 
@@ -32,8 +32,9 @@ def corpus(adapters, tag):
         recs.append((f"{tag}{k}", s, "".join("IHGF"[i % 4] for i in range(len(s)))))
         k += 1
 
-    three = [(f, seq_of(s)) for f, s in adapters if f in ("-a", "-A")]
-    five = [(f, seq_of(s)) for f, s in adapters if f in ("-g", "-G")]
+    # reads carry real bases where an adapter has the wildcard N
+    three = [(f, seq_of(s).replace("N", "G")) for f, s in adapters if f in ("-a", "-A")]
+    five = [(f, seq_of(s).replace("N", "G")) for f, s in adapters if f in ("-g", "-G")]
     for ins in INSERTS:
         add(ins)
         for _, a in three:
@@ -58,10 +59,12 @@ def corpus(adapters, tag):
 def scenarios(tier):
     S = []
     for layout in ("single", "paired"):
-        for n1 in (1, 2, 3):
+        for n1 in (1, 2, 3, 4):
             for times in (1, 2):
                 for final in (None, "discard_untrimmed", "untrimmed_output"):
                     for filt in ([], ["m"]):
+                        if n1 == 4 and (layout == "paired" or filt):
+                            continue
                         S.append(dict(layout=layout, demux="name", n1=n1, n2=(2 if layout == "paired" else 0), times=times, final=final,
                                       keys=filt, cores=1))
         if layout == "paired":
@@ -78,13 +81,16 @@ def scenarios(tier):
         for layout, demux, n2 in (("single", "name", 0), ("paired", "name", 2), ("paired", "combinatorial", 2)):
             for final in (None, "discard_untrimmed"):
                 S.append(dict(layout=layout, demux=demux, n1=2, n2=n2, times=1, final=final, keys=[], cores=1, side=side))
+    # --pair-adapters: the file is that of the adapter PAIR that was applied (best total score over all ranks)
+    for final in (None, "discard_untrimmed"):
+        S.append(dict(layout="paired", demux="name", n1=2, n2=2, times=1, final=final, keys=[], cores=1, pa=True))
     # {name} more than once in the output path
     for layout, n2 in (("single", 0), ("paired", 2)):
         for final in (None, "discard_untrimmed"):
             S.append(dict(layout=layout, demux="name", n1=3, n2=n2, times=1, final=final, keys=[], cores=1, name_twice=True))
     multi = []
     for sc in S:
-        if sc["times"] == 2 and not sc["keys"] and (sc["n1"], sc["n2"]) in ((2, 0), (3, 2), (2, 3), (2, 2)):
+        if sc["times"] == 2 and not sc["keys"] and (sc["n1"], sc["n2"]) in ((2, 0), (3, 2), (2, 3), (2, 2), (4, 0)):
             multi.append(dict(sc, cores=2))
     return S + multi
 
@@ -103,7 +109,30 @@ def opts_of(sc):
         outs[sc["side"]] = True
     if sc.get("name_twice"):
         outs["name_twice"] = True
+    if sc.get("pa"):
+        o["pair_adapters"] = True
+        o["O"] = 3
+        o["adapters"] = [("-a", "p1=TTGACCA"), ("-a", "p2=ACGTTGCA")]
+        o["adapters2"] = [("-A", "q1=GGATCAT"), ("-A", "q2=CATGGTAC")]
     return o, outs
+
+
+def pa_corpus():
+    """Pairs for --pair-adapters: every combination of {nothing, full adapter, short partial occurrence, the last three bases of the
+    rank-1 adapter followed by the full rank-2 adapter} on R1 and on R2."""
+    P1, P2, Q1, Q2 = "TTGACCA", "ACGTTGCA", "GGATCAT", "CATGGTAC"
+    v1 = ["", P1, P2, P1[:4], P2[:4], P1[-3:] + P2, P2 + "GT" + P1]
+    v2 = ["", Q1, Q2, Q1[:4], Q2[:4], Q1[-3:] + Q2, Q2 + "AC" + Q1]
+    r1, r2 = [], []
+    k = 0
+    for a in v1:
+        for b in v2:
+            ins = INSERTS[k % 4]
+            s1, s2 = ins + a, ins[::-1] + b
+            r1.append((f"r{k}", s1, "".join("IHGF"[i % 4] for i in range(len(s1)))))
+            r2.append((f"r{k}", s2, "".join("FGHI"[i % 4] for i in range(len(s2)))))
+            k += 1
+    return r1, r2
 
 
 def shards(tier):
@@ -125,7 +154,9 @@ def run_shard(d):
         if paired:
             base = corpus(o["adapters2"], "x")
             r2 = [(r1[j][0], base[(j * 5 + j // 3) % len(base)][1], base[(j * 5 + j // 3) % len(base)][2]) for j in range(len(r1))]
-        label = f"{sc['demux']}:{'pe' if paired else 'se'}"
+        if sc.get("pa"):
+            r1, r2 = pa_corpus()
+        label = f"{sc['demux']}:{'pe' if paired else 'se'}" + (":pair-adapters" if sc.get("pa") else "")
         if sc.get("revcomp"):
             _revcomp_combinatorial(sc, o, r1, r2, wd, res, label)
             continue
